@@ -6,16 +6,17 @@
 #   nodirname.c        without nc_burst_buf_dirname the documented default (the file's directory) must work: enddef failed
 #   open_recdim.c      inq_dimlen of the record dimension on an OPENED file must count the records still in the log
 #   cancel_nullstat.c  ncmpi_cancel(put + get requests, statuses = NULL) must not crash (argument "bb" selects the driver)
-# (the three programs were written by the sub-agent that produced seeded change C12_h)
+#   varn_logfail.c    a put_varn whose log write fails (log capped with RLIMIT_FSIZE) must report it like put_vara does
+# (the first three programs were written by the sub-agent that produced seeded change C12_h)
 W="${1:?tree}"; HERE="$(cd "$(dirname "$0")" && pwd)"
 TMP="$(mktemp -d /tmp/c12r.XXXXXX)" || exit 2
 trap 'rm -rf "$TMP"' EXIT
 rc=0
-for n in nodirname open_recdim cancel_nullstat; do
+for n in nodirname open_recdim cancel_nullstat varn_logfail; do
   mpicc -g -O0 -I"$W/src/include" -o "$TMP/$n" "$HERE/$n.c" "$W/src/libs/.libs/libpnetcdf.a" -lm || exit 2
   arg=""; [ $n = cancel_nullstat ] && arg="bb"
   ( cd "$TMP" && timeout 60 mpiexec --allow-run-as-root --oversubscribe -n 1 "./$n" "$TMP" $arg > "$n.out" 2>&1 ); r=$?
-  grep -v "^--\|^$\|mpiexec\|Primary\|Process name\|Exit code\|a non-zero\|the job\|^\[vm\|Warning: Log" "$TMP/$n.out" | tail -3
+  grep -v "^IO error\|^--\|^$\|mpiexec\|Primary\|Process name\|Exit code\|a non-zero\|the job\|^\[vm\|Warning: Log" "$TMP/$n.out" | tail -3
   echo "== $n: exit $r"; [ $r -eq 0 ] || rc=1
 done
 exit $rc
